@@ -231,8 +231,22 @@ def atomic_assign(prog, rep):
         direct = [x for s in tr.body for x in ast.walk(s) if isinstance(x, ast.Call) and isinstance(x.func, ast.Attribute) and x.func.attr in ("append", "extend") and is_self_attr(x.func.value, attr, sn)]
         via = [x for s in tr.body for x in ast.walk(s) if isinstance(x, ast.Call) and isinstance(x.func, ast.Attribute) and x.func.attr in adders and norm(x.func.value) == sn]
         loops = [s for s in tr.body if isinstance(s, ast.For) and norm(s.iter) == vals]
+        # .. on every path through the loop body (an element skipped under a condition - falsy, None, a duplicate - is silently not installed)
+        skipping = None
+        from ..facts import path_returns
+        for L_ in loops:
+            fake = ast.FunctionDef(name="_body", args=ast.arguments(posonlyargs=[], args=[], kwonlyargs=[], kw_defaults=[], defaults=[]), body=L_.body, decorator_list=[], lineno=L_.lineno, col_offset=0)
+            for bp in path_returns(fake):
+                if bp.kind == "raise":
+                    continue
+                calls_ = [x for e in bp.effects + ([ast.Expr(value=bp.value)] if bp.value is not None else []) for x in ast.walk(e)
+                          if isinstance(x, ast.Call) and isinstance(x.func, ast.Attribute) and x.func.attr in adders and norm(x.func.value) == sn]
+                if not calls_:
+                    skipping = L_
         if direct or not via or not loops:
             rep.fail("atomic-assign", mod, fq, tr, "elements are not all added through the guarded add method inside the try", construct=f"{fq} body")
+        elif skipping is not None:
+            rep.fail("atomic-assign", mod, fq, skipping, f"an iteration over `{vals}` can end without handing the element to the guarded add: the list installed is not exactly the list assigned", construct=f"{fq} skips elements")
         else:
             rep.ok("atomic-assign", f"{fq}: every element of `{vals}` goes through the guarded add")
         # handler
